@@ -26,7 +26,8 @@ SHRINK_BUDGET = {'quick': 100, 'thorough': 500}
 
 
 def strategy(tier):
-  return st.fixed_dictionaries({'h': O.history('formula', 1, 12)})
+  return st.one_of(st.fixed_dictionaries({'h': O.history('formula', 1, 12)}),
+                   st.fixed_dictionaries({'h': O.history('refdata', 2, 12, focus='refs')}))
 
 
 def compare_with_fresh(doc):
